@@ -61,3 +61,55 @@ CASES = [
          count=1, why="a delimiter wholly inside prev was found by the previous call"),
     dict(id="scan-full-window", props=["C19"], kind="benign", file="aiohttp/multipart.py", old="idx = window.find(sub, max(0, len(self._prev_chunk) - len(sub)))", new="idx = window.find(sub)", count=1, why="full search"),
 ]
+WA = "aiohttp/web_app.py"
+WN = "aiohttp/web_runner.py"
+CASES += [
+    # ---- C20.hooks / subapps / isolate (F15-F17)
+    dict(id="hooks-drain-unprotected", props=["C20"], kind="breaking", file=WN,
+         old="                try:\n                    await self.shutdown()\n                finally:\n                    # A failing on_shutdown handler must not leave connections open.\n                    await self._server.shutdown(self._shutdown_timeout)",
+         new="                await self.shutdown()\n                await self._server.shutdown(self._shutdown_timeout)", expect=["C20.hooks"], count=1, why="failing on_shutdown hook leaves connections open"),
+    dict(id="fallback-own-only", props=["C20"], kind="breaking", file=WA,
+         old="        for subapp in reversed(self._subapps):\n            try:\n                await subapp._exit_started_contexts()\n            except (Exception, asyncio.CancelledError) as exc:\n                errors.append(exc)\n",
+         new="", expect=["C20.subapps"], count=1, why="sub-application contexts leak after a failed startup"),
+    dict(id="isolate-no-finally", props=["C20"], kind="breaking", file=WA,
+         old="            try:\n                await self.on_cleanup.send(self)\n            finally:\n                # The signal stops at the first receiver that raises: make sure\n                # the remaining contexts (e.g. of sub-applications) are exited.\n                await self._exit_started_contexts()",
+         new="            await self.on_cleanup.send(self)\n            await self._exit_started_contexts()", expect=["C20.isolate"], count=1, why="a failing receiver skips the remaining contexts"),
+    dict(id="exits-not-consumed", props=["C20"], kind="breaking", file=WA,
+         old="        while self._exits:\n            # Forget the context first, so that it is never exited twice.\n            it = self._exits.pop()\n",
+         new="        for it in reversed(self._exits):\n", expect=["C20.isolate"], count=1, why="signal + fallback exit hand-written contexts twice"),
+    dict(id="exits-helper-rename", props=["C20"], kind="benign", file=WA, old="_exit_started_contexts", new="_unwind_contexts", count=4, why="rename"),
+]
+RP = "aiohttp/_websocket/reader_py.py"
+CN = "aiohttp/connector.py"
+MPT = "aiohttp/multipart.py"
+PLD = "aiohttp/payload.py"
+WPR = "aiohttp/web_protocol.py"
+CASES += [
+    # ---- round-3 rules
+    dict(id="mask-assert-only", props=["C12"], kind="breaking", file=RP, old="                elif self._has_mask:\n                    assert self._frame_mask is not None", new="                elif self._frame_mask is not None:", expect=["C12.mask"], count=1,
+         why="unfragmented unmasked frame after a masked one is XOR-ed with the stale key"),
+    dict(id="mask-walrus-local", props=["C12"], kind="benign", file=RP, old="                elif self._has_mask:\n                    assert self._frame_mask is not None", new="                elif self._has_mask:\n                    assert self._frame_mask is not None and len(self._frame_mask) == 4", count=1,
+         why="stronger assertion"),
+    dict(id="connect-two-deadlines", props=["C18"], kind="breaking", file=CN,
+         old="        async with ceil_timeout(timeout.connect, timeout.ceil_threshold):\n            if self._available_connections(key) <= 0:\n                await self._wait_for_available_connection(key, traces)\n",
+         new="        if self._available_connections(key) <= 0:\n            async with ceil_timeout(timeout.connect, timeout.ceil_threshold):\n                await self._wait_for_available_connection(key, traces)\n        async with ceil_timeout(timeout.connect, timeout.ceil_threshold):\n            if False:\n                pass\n",
+         expect=["C18.scope.connect"], count=1, why="budget restarts after the pool wait"),
+    dict(id="b64-direct-when-aligned", props=["C19"], kind="breaking", file=MPT, old="            buf.extend(chunk)\n\n            if buf:", new="            if len(chunk) % 3 == 0:\n                await self._writer.write(base64.b64encode(chunk))\n                return\n            buf.extend(chunk)\n\n            if buf:",
+         expect=["C19.b64"], count=1, why="aligned chunk overtakes the carried bytes"),
+    dict(id="b64-direct-when-empty", props=["C19"], kind="benign", file=MPT, old="            buf.extend(chunk)\n\n            if buf:", new="            if not buf and len(chunk) % 3 == 0:\n                await self._writer.write(base64.b64encode(chunk))\n                return\n            buf.extend(chunk)\n\n            if buf:",
+         count=1, why="direct only when nothing is carried"),
+    dict(id="latch-empty-consumes", props=["C03"], kind="breaking", file=HP, old="        if not self._started_decoding and chunk:", new="        if not self._started_decoding:", expect=["C03.latch"], count=1,
+         why="(IndexError on chunk[0] aside) an empty first feed consumes the sniff"),
+    dict(id="latch-len-test", props=["C03"], kind="benign", file=HP, old="        if not self._started_decoding and chunk:", new="        if not self._started_decoding and len(chunk) > 0:", count=1, why="same test"),
+    dict(id="payload-unsliced", props=["C04"], kind="breaking", file=PLD, old="                    await writer.write(chunk[:remaining_bytes])\n                    remaining_bytes -= len(chunk)\n                # We still want", new="                    await writer.write(chunk)\n                    remaining_bytes -= len(chunk)\n                # We still want",
+         expect=["C04.length"], count=1, why="async-iterable payload overruns the declared length"),
+    dict(id="fold-per-line", props=["C10"], kind="breaking", file=HP, old="                    header_length += len(line)\n                    if header_length > self.max_field_size:", new="                    if len(bvalue) + len(line) > self.max_field_size:", expect=["C10.fold"], count=1,
+         why="folded field grows without bound"),
+    dict(id="fold-total-via-list", props=["C10"], kind="benign", file=HP, old="                    header_length += len(line)\n                    if header_length > self.max_field_size:", new="                    header_length = header_length + len(line)\n                    header_length += 0\n                    if header_length > self.max_field_size:", count=1,
+         why="same running total"),
+    dict(id="read-limit-per-chunk", props=["C09"], kind="breaking", file="aiohttp/web_request.py", old="                    body_size = len(body)\n", new="                    body_size = len(chunk)\n", expect=["C09.limit"], count=1, why="limit applied to each chunk, body unbounded"),
+    dict(id="flag-from-parser-error", props=["C05"], kind="breaking", file=WPR, old="                upgraded = False\n                tail = b\"\"\n\n            for msg, payload in messages:", new="                upgraded = False\n                tail = b\"\"\n                self._close = True\n\n            for msg, payload in messages:",
+         expect=["C05.flags"], count=1, why="queued requests and the 400 are dropped"),
+    dict(id="flag-helper", props=["C05"], kind="benign", why="close() delegates to a helper that sets the flag",
+         edits=[dict(file=WPR, old="        self._close = True\n        if self._waiter:\n            self._waiter.cancel()\n\n    def force_close", new="        self._mark_closing()\n        if self._waiter:\n            self._waiter.cancel()\n\n    def _mark_closing(self) -> None:\n        self._close = True\n\n    def force_close", count=1)]),
+]
